@@ -89,8 +89,9 @@ class World(EventDispatcher):
         for component in components:
             component_type = type(component)
 
-            # Manage replaced components (a custom ID may be in use already)
-            if component_type in self._entities.get(entity_id, {}):
+            # Manage replaced components (a custom ID may be in use already).
+            # Repeat: the on_remove of the replaced one may attach another
+            while component_type in self._entities.get(entity_id, {}):
                 dead = entity_id in self._dead_entities
                 self.remove_component(entity_id, component_type)
                 # A replacement shall not cancel a pending deletion
@@ -146,8 +147,9 @@ class World(EventDispatcher):
         if entity not in self._entities:
             self._dead_entities.discard(entity)
 
-        # Manage replaced components
-        if component_type in self._entities.get(entity, {}):
+        # Manage replaced components. Repeat: the on_remove of the
+        # replaced one may itself attach a component of this type
+        while component_type in self._entities.get(entity, {}):
             dead = entity in self._dead_entities
             self.remove_component(entity, component_type)
             # A replacement shall not cancel a pending deletion
